@@ -1171,7 +1171,7 @@ class Evaluator:
         if op in ("is", "isnot", "==", "!="):
             # comparing a truth value with True / False is that truth value (or its negation)
             for x, y in ((a, b), (b, a)):
-                if x in (TRUE, FALSE) and y[0] in ("not", "and", "or", "eq", "cmp", "in", "isinstance", "quant"):
+                if x in (TRUE, FALSE) and (y[0] in ("not", "and", "or", "eq", "cmp", "in", "isinstance", "quant") or self._declared_bool(y)):
                     same = (x == TRUE) == (op in ("is", "=="))
                     return y if same else t_not(y)
         if op in ("is", "isnot", "==", "!=") and "sentinel" in (a[0], b[0]) and a != b:
@@ -1193,6 +1193,18 @@ class Evaluator:
                 # an element of a list annotated List[<package class>] is an object of that class
                 return FALSE if op in ("is", "==") else TRUE
         return t_cmp(op, a, b)
+
+    def _declared_bool(self, t: Term) -> bool:
+        """a call of a package function / method whose declared result is ``bool``"""
+        if t[0] != "call" or not isinstance(t[1], tuple):
+            return False
+        fs: List[FunctionInfo] = []
+        if t[1][0] == "fn":
+            fs = [x for x in self.model.all_functions() if x.qualname == t[1][1]]
+        elif t[1][0] == "attr":
+            bc = self.type_of(t[1][1])
+            fs = bc.resolve_all(t[1][2]) if bc is not None else []
+        return len(fs) >= 1 and all(isinstance(x.node.returns, ast.Name) and x.node.returns.id == "bool" for x in fs)
 
     def _isinstance_known(self, v: Term, k: Term) -> Optional[Term]:
         """isinstance of a value built right here (a literal, a constructor result) against builtin types / package classes: one answer"""
@@ -1580,6 +1592,8 @@ class Evaluator:
             cands = [x for x in self.model.all_functions() if x.qualname == f[1]]
             if len(cands) == 1 and cands[0].kind in ("function", "staticmethod"):
                 return self.call_function(cands[0], None, None, [arg] + more, [], fr)
+            if len(cands) == 1 and cands[0].kind == "classmethod" and cands[0].cls is not None:
+                return self.call_function(cands[0], ("cls", cands[0].cls.name), cands[0].cls, [arg] + more, [], fr)
             if len(cands) == 1 and cands[0].kind == "method":
                 return self.call_function(cands[0], arg, self.type_of(arg) or cands[0].cls, more, [], fr)
         if f[0] == "attr":
@@ -1664,6 +1678,11 @@ class Evaluator:
                 inner_dom = src[2]
                 b = ("bound", fr.depth, 1, show(inner_dom))
                 return ("comp", "gen", b, (src[3][0], (inner_dom, ())))
+            if src[0] in ("attr", "values", "call", "sym", "keys", "sub"):
+                # every element of every element, in order
+                b0 = ("bound", fr.depth, 0, show(src))
+                b1 = ("bound", fr.depth, 1, show(b0))
+                return ("comp", "gen", b1, ((src, ()), (b0, ())))
             return None
         if short == "chain" and fname.split(".")[-1] == "chain" and len(args) >= 1 and tail2 != "chain.from_iterable":
             return ("concat", tuple(args))
